@@ -32,6 +32,10 @@ CHECKS = {
             "differential execution monitor: real Python Emulator vs real Rust LlamaExecutor (client harness binary) on identical flat memories, single instructions and lockstep programs; Rust overflow/debug-assert panics caught per case",
             "Held (modulo mechanism-keyed known findings) on every Python-accepted structural head x {distinguishing, boundary, random} states and on seeded programs compared after every step. Known findings are matched by mechanism predicate + field-subset, so any other disagreement is a fresh violation.",
             "Python and Rust run in separate processes connected by JSONL vectors; flat device-free buses; F bits 2-7 and TEMPs not compared.", "DESIGN.md 3/C06"),
+    "C07": ("exploration",
+            "hidden-state differential monitors on both real cores (fresh vs long-lived core with poisoned TEMPs / call bookkeeping / perf counters), read-before-write taint monitor on the register file, split-run comparison, 8-thread stress of the Rust process-wide statics, two-process digest comparison",
+            "Held on every sampled head executed after an arbitrary history of earlier cases with poisoned hidden state, on programs run continuously vs through CPUStepper snapshots (Python) and vs executor/state rebuilt from architectural registers every 1/3/7 steps (Rust), on 8 concurrent Rust runtimes with yield injection, and across two fresh processes with different hash seeds.",
+            "Architectural outputs only; the Rust ASan/TSan/Miri runtimes are not available offline, so the thread stress is an oracle over results, not a race detector.", "DESIGN.md 3/C07"),
 }
 
 NOT_APPLICABLE = []  # filled automatically for properties without a check (reason below)
